@@ -112,13 +112,57 @@ def lib_distrib(ex, st, a, b, c):
     return vbool(z3.And((a - b) * c == a * c - b * c, (a + b) * c == a * c + b * c))
 
 
+def lib_div_cancel(ex, st, A, L, D, U):
+    """L != 0 and A*L == D*U  ==>  A == (D/L)*U"""
+    A, L, D, U = _r(A), _r(L), _r(D), _r(U)
+    return vbool(z3.Implies(z3.And(L != 0, A * L == D * U), A == (D / L) * U))
+
+
+def lib_div_sign(ex, st, D, L):
+    D, L = _r(D), _r(L)
+    return vbool(z3.Implies(L > 0, z3.And((D / L < 0) == (D < 0), (D / L > 1) == (D > L), (D / L >= 0) == (D >= 0),
+                                           (D / L <= 1) == (D <= L))))
+
+
+def lib_sq_mono(ex, st, p, r):
+    p, r = _r(p), _r(r)
+    return vbool(z3.Implies(z3.And(p >= 0, r >= 0), z3.And((p <= r) == (p * p <= r * r), (p < r) == (p * p < r * r))))
+
+
+def lib_mul_cancel(ex, st, n, A, B):
+    n, A, B = _r(n), _r(A), _r(B)
+    return vbool(z3.Implies(z3.And(n != 0, A * n == n * B), A == B))
+
+
+def lib_sq_eq(ex, st, p, r):
+    p, r = _r(p), _r(r)
+    return vbool(z3.Implies(p == r, p * p == r * r))
+
+
+def lib_sq_prod(ex, st, p, r):
+    p, r = _r(p), _r(r)
+    return vbool((p * r) * (p * r) == (p * p) * (r * r))
+
+
+def sf_sqrt(ex, st, x):
+    from . import mathlib
+    ex.ctx.math_used.add("sqrt")
+    return vfloat(mathlib.SQRT(_r(x)))
+
+
 def lib_schemas():
-    a, b, c = z3.Reals("a!l b!l c!l")
+    a, b, c, d = z3.Reals("a!l b!l c!l d!l")
     mk = lambda f, *xs: truth(f(None, None, *[vfloat(x) for x in xs]))
     return [("mul_nonneg", [], z3.ForAll([a, b], mk(lib_mul_nonneg, a, b))),
             ("mul_mono", [], z3.ForAll([a, b, c], mk(lib_mul_mono, a, b, c))),
             ("sq_nonneg", [], z3.ForAll([a], mk(lib_sq_nonneg, a))),
-            ("distrib", [], z3.ForAll([a, b, c], mk(lib_distrib, a, b, c)))]
+            ("distrib", [], z3.ForAll([a, b, c], mk(lib_distrib, a, b, c))),
+            ("div_cancel", [], z3.ForAll([a, b, c, d], mk(lib_div_cancel, a, b, c, d))),
+            ("div_sign", [], z3.ForAll([a, b], mk(lib_div_sign, a, b))),
+            ("sq_mono", [], z3.ForAll([a, b], mk(lib_sq_mono, a, b))),
+            ("mul_cancel", [], z3.ForAll([a, b, c], mk(lib_mul_cancel, a, b, c))),
+            ("sq_eq", [], z3.ForAll([a, b], mk(lib_sq_eq, a, b))),
+            ("sq_prod", [], z3.ForAll([a, b], mk(lib_sq_prod, a, b)))]
 
 
 _install1 = install
@@ -126,4 +170,6 @@ _install1 = install
 
 def install(reg):  # noqa: F811
     _install1(reg)
-    reg.specfuncs.update(mul_nonneg=lib_mul_nonneg, mul_mono=lib_mul_mono, sq_nonneg=lib_sq_nonneg, distrib=lib_distrib)
+    reg.specfuncs.update(mul_nonneg=lib_mul_nonneg, mul_mono=lib_mul_mono, sq_nonneg=lib_sq_nonneg, distrib=lib_distrib,
+                         div_cancel=lib_div_cancel, div_sign=lib_div_sign, sq_mono=lib_sq_mono, mul_cancel=lib_mul_cancel,
+                         sq_eq=lib_sq_eq, sq_prod=lib_sq_prod, sqrt=sf_sqrt)
